@@ -33,8 +33,16 @@ MANIFEST = dict(
          "covering base unless a covering type lies strictly below it, else a minimal matching covering "
          "type); corollaries c13_exact_wins, c13_nearest(_base/_nominal), c13_never_less_specific, "
          "c13_covers_subclasses, c13_order_independent_chain, c13_lookup_pure, c13_immediate, c13_isolation, "
-         "c13_default_glommer; per-run facts obligation by `decide` on the registration sequences, decision "
-         "shapes and builtin hierarchy regenerated from /repo; model tied to the code by differential "
+         "c13_default_glommer; failed lookups and rejected calls: get_handler under either memo policy "
+         "(failed lookups memoised or not) answers like the un-memoised lookup on every reachable registry "
+         "(c13_memo_policy_irrelevant), a registration makes registries that differ in their memo equal "
+         "(c13_registration_forgets_lookups, c13_immediate_op), a register()/register_op() call is applied in "
+         "full or raises TypeError and leaves tables, trees and memo as they were (c13_rejected_register_noop, "
+         "c13_rejected_register_op_noop) so that every later lookup of any further history answers as without "
+         "the call (c13_rejected_history); per-run facts obligation by `decide` on the registration sequences, decision "
+         "shapes (incl. statement order: every write of register/register_op to the registry's tables, trees "
+         "and memo follows the last raise; get_handler raises before the memo write) and builtin hierarchy "
+         "regenerated from /repo; model tied to the code by differential "
          "execution of real register/get_handler/glom/assign/delete calls against the compiled Lean driver "
          "(answers, invoked handlers and final tree shapes compared).",
     note="trusted: Lean kernel + {propext, Classical.choice, Quot.sound}; extractor (extract/facts/c13.py); "
@@ -42,8 +50,10 @@ MANIFEST = dict(
          "is a decidable check, proved sufficient for the theorems' hypotheses; incoherent hierarchies are "
          "skipped); auto-discovery functions are environment parameters (their results per class are read "
          "from the implementation; C11/C12 cover them); the iteration order of the set `known_types` in "
-         "register_op is an explicit parameter observed by the harness; handlers are False or callable and "
-         "auto-discovery does not raise (TypeError paths of register/register_op not modelled).",
+         "register_op is an explicit parameter observed by the harness; values register()/register_op() refuse "
+         "(not callable and not False; an auto-discovery function that raises) are encoded as handlers with "
+         "reserved names; which op / type the TypeError names is not observed; a Glommer() whose construction "
+         "itself raises TypeError (it copies an auto function that refuses a default type) is skipped.",
     technique='Lean 4 invariant proof over operation lists + refinement to a set-based reference semantics + '
               'facts obligation by decide + differential correspondence',
     ref='DESIGN.md §3 C13')
@@ -55,16 +65,24 @@ RULE = ('type-directed: a class hierarchy is drawn from the families chain / dia
         'False), TargetRegistry(True/False)) are constructed at random points; 0-8 register() calls (case '
         'classes, builtin and glom duck types; exact in {True, False, omitted}; 0-3 ops with tagged handlers '
         'or False; user ops) and occasional register_op() calls, with 1-3 lookups after every call on this '
-        'and the other registries, through get_handler(raise_exc=True/False) or real glom(obj,"x") / '
+        'and the other registries (also of an op nobody registered yet), through get_handler(raise_exc=True/False) or real glom(obj,"x") / '
         'glom(obj,[T]) / glom(obj,"*") / assign / delete; a one-edit stream re-registers one type at every '
-        'position of a valid history; thorough also enumerates all subsets and orders of registrations with '
+        'position of a valid history; a failing-lookup stream (bare registry / op not registered yet / type '
+        'without a handler -> the registration that makes the lookup succeed, nothing in between -> the same '
+        'lookup -> unrelated registration -> the same lookup); a rejected-registration stream (register() with '
+        'one non-callable handler at a random position of the sorted op order, an auto-discovery function that '
+        'raises or returns a non-callable [in register() and in register_op(), also for an op whose table a '
+        'register() keyword introduced], an instance instead of a type, a non-string op name, a non-callable '
+        'auto_func; on types that were / were not looked up before; then lookups of every class, an unrelated '
+        'registration, the lookups again), and the same rejected calls sprinkled over the random histories; '
+        'thorough also enumerates all subsets and orders of registrations with '
         'exact in {True, False} of 12 fixed hierarchies of <= 4 classes with a lookup of every class after '
         'every registration. non-trivial = the history has a register() call and some lookup is answered '
         'from the exact table or the type tree; distinct = distinct (classes, registries, actions)')
 TRUSTED = ['isinstance / issubclass / __mro__ tables of each case are computed by the interpreter and '
            'checked for coherence (tableOK) by the Lean driver; cases failing it are skipped',
            'auto-discovery results per class are read from glom\'s own auto functions (environment of C13)']
-ASSUMPTIONS = ['handlers are False or callable; auto-discovery functions do not raise',
+ASSUMPTIONS = ['the error class of a rejected call is TypeError; which op / type it names is not compared',
                'register_op iterates a set: its order is observed by the harness and passed to the model']
 
 BUILTIN_NAMES = ['object', 'dict', 'OrderedDict', 'list', 'tuple', 'set', 'frozenset', 'str', 'int']
@@ -1003,14 +1021,17 @@ def rejected_stream(rng, n):
             return 'h:%d' % tagn[0]
         ops = rng.sample(OPS, rng.choice([1, 2, 2, 3]))
         acts = []
-        mode = rng.choice(['kw', 'kw', 'kw', 'kw', 'auto-in-register', 'register_op', 'register_op', 'bad-call'])
+        mode = rng.choice(['kw', 'kw', 'kw', 'kw', 'auto-in-register', 'register_op', 'register_op',
+                           'register_op', 'bad-call'])
         if mode == 'auto-in-register':
             # an op whose auto-discovery function refuses some types: registered while no such type
             # is known, so that a later register(<such a type>) is refused
             acts.append({'a': 'register_op', 'reg': 0, 'op': 'uop', 'auto': rng.choice(BAD_AUTOS),
                          'exact': rng.random() < 0.3})
-        elif mode == 'register_op' and rng.random() < 0.6:
-            # the op is introduced by a register() keyword: its table covers only that type
+        partial = mode == 'register_op' and rng.random() < 0.7
+        if partial:
+            # the op is introduced by a register() keyword: its table covers only that type, so a
+            # later register_op() has handlers to discover (and to validate) for all the others
             acts.append({'a': 'register', 'reg': 0, 'ty': rng.choice(names), 'exact': rng.random() < 0.3,
                          'kw': [['uop', tag()]]})
         for t in rng.sample(names, rng.randint(1, len(names))):
@@ -1033,13 +1054,17 @@ def rejected_stream(rng, n):
             acts.append({'a': 'register', 'reg': 0, 'ty': rng.choice(names), 'exact': rng.random() < 0.3,
                          'kw': [[o, tag()] for o in ops if rng.random() < 0.7]})
         elif mode == 'register_op':
-            acts.append({'a': 'register_op', 'reg': 0, 'op': rng.choice(['uop', 'uop', 'get', 'iterate']),
+            acts.append({'a': 'register_op', 'reg': 0,
+                         'op': 'uop' if partial and rng.random() < 0.85 else rng.choice(['uop', 'get', 'iterate']),
                          'auto': rng.choice(BAD_AUTOS), 'exact': rng.random() < 0.3})
         else:
             acts.append(gen_bad_call(rng, 0, names + ['dict'], tag))
         after = []
         for q in names:
-            for o in rng.sample(look_ops, min(len(look_ops), rng.choice([1, 2]))):
+            qops = rng.sample(look_ops, min(len(look_ops), rng.choice([1, 2])))
+            if 'uop' in look_ops and 'uop' not in qops and rng.random() < 0.8:
+                qops.append('uop')
+            for o in qops:
                 after.append(_same_lookup(rng, o, q))
         acts += after
         acts.append({'a': 'register', 'reg': 0, 'ty': rng.choice(['int', 'str', 'tuple']), 'exact': rng.random() < 0.5,
